@@ -1188,6 +1188,12 @@ def idn_domains(ctx):
                 lab += rng.choice(["-", "1", "a", "-x"])
             labs.append(lab)
         out.append(".".join(labs).encode())
+    # long in UTF-8, short as A-labels: labels of one repeated character (the limits 63 / 253 apply to the A-form)
+    for a_, b_ in (("中", "国"), ("ж", "я"), ("한", "국"), ("α", "ω"), ("é", "ü")):
+        for n1 in (20, 40, 50):
+            for tld_ in ("com", "рф", "中国", "xn--p1ai"):
+                out.append((a_ * n1 + "." + b_ * n1 + "." + tld_).encode())
+                out.append((a_ * n1 + "." + b_ * n1 + "." + a_ * n1 + b_ + "." + tld_).encode())
     # malformed: invalid UTF-8, disallowed code points, hyphen rules, long labels
     out += [b"\xff.com", b"a\xc3.com", "a‍.com".encode(), "☃☃.com".encode(), "I♥NY.de".encode(), "xn--a-.com".encode(), b"ab--cd.com", b"-a.com", b"a-.com",
             ("ж" * 64 + ".рф").encode(), ("é" * 59 + ".com").encode(), ("é" * 62 + ".com").encode(), "á.com".encode(), "ǅ.com".encode(), "Ａ.com".encode()]
@@ -1196,6 +1202,15 @@ def idn_domains(ctx):
 
 def c10(ctx):
     us = idn_domains(ctx)
+    # what the converter says about each domain, asked directly (`is_utf8_domain`), not through `is_6531_email`
+    direct = {}
+    uops = ["U 0 %s" % hx(u) for u in us]
+    cu_, lu_ = ctx.run("direct", "default", uops)
+    ctx.evals += len(uops)
+    for u, li in zip(us, open(os.path.join(ctx.scr.dir, "direct_default.leanin")).read().split("\n")[1:]):
+        m = re.search(r" @ (-?\d+) (\S+)", li)
+        if m and m.group(1) == "0" and m.group(2) != "-":
+            direct[u] = bytes.fromhex(m.group(2))
     for t in (0, 1):
         ops = ["E 6531 %d %s" % (t, hx(b"a@" + u)) for u in us]
         c, l = ctx.run("ulabel", "default", ops)
@@ -1211,6 +1226,10 @@ def c10(ctx):
             m = re.search(r" @ (-?\d+) (\S+)", li)
             if not m:
                 stats["no-conversion"] += 1
+                # the address was decided without asking the converter; if the converter accepts the domain, its A-label spelling
+                # must get the same decision
+                if u in direct:
+                    pairs.append((u, direct[u], cl))
                 continue
             if m.group(1) != "0":
                 stats["idn-error"] += 1
@@ -1239,6 +1258,17 @@ def c10(ctx):
                 fm = fields(asc[m][i])
                 if fm[1] != fa[1]:
                     ctx.S("mode %d gives the A-label spelling a different decision/class than mode 6531" % m, op="E %d %d %s" % (m, t, hx(b"a@" + a)), ascii_mode=asc[m][i], m6531=ca[i])
+        # the two spellings next to each other, with the TLD check toggled in between: still the same treatment
+        sub = [(u, a) for u, a, _ in pairs if u != a][:: (7 if ctx.tier == "quick" else 1)]
+        iops = []
+        for u, a in sub:
+            iops += ["E 6531 %d %s" % (1 - t, hx(b"a@" + u)), "E 6531 %d %s" % (t, hx(b"a@" + u)), "E 6531 %d %s" % (t, hx(b"a@" + a))]
+        ci = ctx.K("interleaved", "default", iops, nontrivial=lambda op, ln: True)
+        for k, (u, a) in enumerate(sub):
+            ru, ra = fields(ci[3 * k + 1]), fields(ci[3 * k + 2])
+            if ru[1:4] != ra[1:4]:
+                ctx.S("mode 6531 treats the U-label and A-label spellings of a domain differently (right after a call with the other tld_check setting)",
+                      op=iops[3 * k + 1], history=iops[3 * k: 3 * k + 3], ulabel=ci[3 * k + 1], alabel=ci[3 * k + 2])
         # all-ASCII domains: 6531 accepts only what the ASCII modes accept, same class; otherwise an IDN error
         ascd = [d for d in dict.fromkeys(gen.domain_strings("quick", ctx.rng)[:: (20 if ctx.tier == "quick" else 2)]) if 0 not in d and all(x < 128 for x in d) and b"@" not in d and not d.startswith(b"[")]
         tbl = table_names(ctx)
@@ -1252,6 +1282,7 @@ def c10(ctx):
                 ctx.S("mode 6531 accepts an all-ASCII domain the ASCII modes reject (or with another class)", op="E 6531 %d %s" % (t, hx(b"a@" + d)), m6531=a6, m5321=a5)
             if acc5 and not acc6 and f6[1] != "-2":
                 ctx.S("mode 6531 rejects an all-ASCII domain the ASCII modes accept, and not with an IDN error", op="E 6531 %d %s" % (t, hx(b"a@" + d)), m6531=a6, m5321=a5)
+        stats["asked-directly-converted"] = len(direct)
         ctx.extra_cov.setdefault("idn_oracle", {}).update({"tld=%d %s" % (t, k): v for k, v in stats.items()})
 RULES["C10"] = "distinct domains: every IDN TLD of the table in U- and A-form, 1-4 labels from eight scripts, malformed UTF-8 / disallowed code points / hyphen violations / long labels, all-ASCII domains of the C04/C07 generators; the A-label is the one libidn2 produced on this run"
 TRUSTED_EXTRA["C10"] = ["libidn2's IDNA2008 conformance is an oracle: hypotheses H_same (conversion is idempotent on A-labels) and H_ascii (ASCII domains convert to their lower-case form) are validated on every recorded conversion, not proved"]
